@@ -80,6 +80,23 @@ def kernel(eng, obl, out):
     for label, model, info in obl.failed:
         if info and info[0] == "kernel":
             out.violation("visit_path-flag", "-", info[1])
+    # any other override of the type visitor must continue the default traversal, otherwise parameter mentions below it are missed
+    for name, fl in eng.fns.items():
+        if "contains_in_type" in name and "<impl at" in name.split("contains_in_type")[-1] and not name.endswith("::visit_path") and not name.startswith("const "):
+            meth = name.rsplit("::", 1)[-1]
+            ex3 = eng.executor()
+            ex3.trace = c04._All()
+            try:
+                res3 = ex3.run(fl[0], eng.args_for(fl[0]))
+            except mx.Inconclusive as e:
+                out.inconclusive.append("fn=Visitor::%s reason=%s" % (meth, e))
+                continue
+            obl.note_paths("Visitor::" + meth, res3, ex3)
+            obl.total += 1
+            if res3 and all(any(e[0] == "visit::" + meth for e in r.events) for r in res3 if r.kind == "return"):
+                obl.discharged += 1
+            else:
+                out.violation("visitor-override|" + meth, "-", "the parameter-mention visitor overrides `%s` without continuing the traversal: mentions inside are not found" % meth)
 
 
 def run(tier):
@@ -100,14 +117,21 @@ def run(tier):
                 continue
             if fam == "CompareOp":
                 frees = [set(), {rnd.choice(c04.cmpcfg.PREC[trait])}] if tier != "thorough" else [set()] + [{a} for a in c04.cmpcfg.PREC[trait]]
+                if skind == "struct":
+                    fr2 = {rnd.choice(c04.cmpcfg.PREC[trait])}
+                    r_ = c04.safe_builder(eng, obl, out, spec, 1, 2, free_attrs=fr2, pid=PID, only_field_events=True, quiet_fields=True)
+                    if r_ is not None:
+                        obl.ex_by_label["%s[1x2 free=%s quiet-fields]" % (label, "+".join(sorted(fr2)))] = r_
                 for fr in frees:
-                    ex, shape, ref = c04.run_builder(eng, obl, out, spec, 1, 1, free_attrs=fr, pid=PID, only_field_events=True)
-                    obl.ex_by_label["%s[%dx%d free=%s]" % (label, 1, 1, "+".join(sorted(fr)))] = (ex, shape, ref)
+                    r_ = c04.safe_builder(eng, obl, out, spec, 1, 1, free_attrs=fr, pid=PID, only_field_events=True)
+                    if r_ is not None:
+                        obl.ex_by_label["%s[%dx%d free=%s]" % (label, 1, 1, "+".join(sorted(fr)))] = r_
             else:
                 sizes = [(1, 1)] + ([(1, 2)] if skind == "struct" and (fam not in ("Debug", "Default") or tier == "thorough") else [])
                 for nv, nf in sizes:
-                    ex, shape, ref = c04.run_builder(eng, obl, out, spec, nv, nf, pid=PID, only_field_events=True)
-                    obl.ex_by_label["%s[%dx%d]" % (label, nv, nf)] = (ex, shape, ref)
+                    r_ = c04.safe_builder(eng, obl, out, spec, nv, nf, pid=PID, only_field_events=True)
+                    if r_ is not None:
+                        obl.ex_by_label["%s[%dx%d]" % (label, nv, nf)] = r_
         obl.failed = [f for f in obl.failed if not (f[2] and f[2][0] == "kernel")]
         c04.replay_failures(obl, out, PID)
         if tier == "thorough":
